@@ -22,7 +22,7 @@ pub fn run(ctx: &mut RunCtx) {
     p.ops = ctx.tier.pick(2..30, 2..60);
     p.ws = 1..7;
     p.w_compact = 5;
-    let cases = ctx.tier.pick(24_000, 120_000);
+    let cases = ctx.tier.pick(24_000, 400_000);
     let excl = excl_from(ctx);
     let test = |ops: &Vec<Op>, obs: &mut Obs| {
         let dir = crate::engine::temp_dir();
